@@ -180,11 +180,14 @@ var Scenarios = []Directed{
 		s.expect(!OK(s.Vote(2, p[0], 2)), "vote for a non-existent option fails")
 		s.End()
 		s.Begin(Hdr{Evidence: []int{3}}) // 7: a voter is slashed
+		s.expect(!OK(s.Vote(1, p[0], 5)), "a vote for a non-existent option by somebody who has voted fails (and leaves the earlier vote standing)")
+		s.expect(!OK(s.Vote(1, p[0], -1)), "a negative choice fails")
 		s.expect(OK(s.Vote(1, p[0], 0)), "re-vote moves the tally")
 		s.expect(OK(s.Vote(3, p[0], 0)), "slashed voter votes with reduced power")
 		s.End()
 		s.Begin(allHdr) // 8 = end
-		s.expect(OK(s.Vote(2, p[0], 1)), "vote at end")
+		s.expect(!OK(s.Vote(3, p[0], 2)), "out-of-range choice by a voter whose vote stands")
+		s.expect(OK(s.Vote(2, p[0], 1)), "vote at end (somebody else's accepted vote after the refused one)")
 		s.End()
 		s.Begin(allHdr) // 9: closed
 		s.expect(!OK(s.Vote(2, p[0], 0)), "vote after the window fails")
@@ -338,6 +341,84 @@ var Scenarios = []Directed{
 		s.End()
 		s.Blocks(6, allHdr)
 	}},
+	{"minstake_change", []string{"C10", "C06", "C07", "C15"}, fam(2), func(s *Script) {
+		// powers 5,8,10,12,20 on five seats; governance raises the minimum validator stake to 6 (a1 falls out), later
+		// lowers it to 1 (it comes back); self-stakings around the minimum in the blocks next to the switch
+		s.Blocks(3, allHdr)
+		s.Begin(allHdr) // 4
+		s.expect(OK(s.Propose(5, 6, 2, 10, `{"minValidatorStake":"6000000000000000000"}`)), "proposal: minimum 6")
+		s.End()
+		p := s.Proposals()
+		s.Blocks(1, allHdr)
+		s.Begin(allHdr) // 6
+		for _, v := range []int{5, 4, 3, 2} {
+			if len(p) == 1 {
+				s.Vote(v, p[0], 0)
+			}
+		}
+		s.End()
+		s.Blocks(3, allHdr)   // 7, 8, 9
+		s.Begin(allHdr)       // 10: applied at the end of this block, in force from 11
+		s.Stake(6, 6, "3e18") // allowed under the old minimum (2)
+		s.End()
+		s.Begin(allHdr)       // 11
+		s.Stake(7, 7, "3e18") // refused under the new minimum (6)
+		s.Stake(8, 8, "6e18") // allowed
+		s.End()
+		s.Begin(allHdr) // 12
+		s.expect(OK(s.Propose(5, 14, 2, 18, `{"minValidatorStake":"1000000000000000000"}`)), "proposal: minimum 1")
+		s.End()
+		q := s.Proposals()
+		s.Blocks(1, allHdr)
+		s.Begin(allHdr) // 14
+		for _, v := range []int{5, 4, 3, 2} {
+			for _, id := range q {
+				s.Vote(v, id, 0)
+			}
+		}
+		s.End()
+		s.Blocks(3, allHdr)   // 15..17
+		s.Begin(allHdr)       // 18
+		s.Stake(7, 7, "1e18") // still refused
+		s.End()
+		s.Begin(allHdr)       // 19
+		s.Stake(7, 7, "1e18") // allowed under the lowered minimum
+		s.End()
+		s.Blocks(3, allHdr)
+	}},
+	{"unbond_across_restart", []string{"C12", "C07"}, fam(0), func(s *Script) {
+		// stakes released before a restart mature after it: by an unstaking transaction, by a validator's own exit
+		// (delegators force-released), and by downtime jailing; restarts at several distances from the refund height
+		s.Blocks(2, allHdr)
+		s.Begin(allHdr) // 3
+		s.expect(OK(s.Stake(4, 1, "4e18")), "a4 -> a1")
+		s.expect(OK(s.Stake(4, 1, "10e18")), "a4 -> a1 again")
+		s.expect(OK(s.Stake(5, 2, "3e18")), "a5 -> a2")
+		s.expect(OK(s.Stake(6, 3, "2e18")), "a6 -> a3")
+		s.End()
+		s.Begin(allHdr) // 4
+		s.expect(OK(s.Stake(4, 1, "8e18")), "a4 -> a1 a third time: a1 holds more than two thirds of what remains later")
+		s.End()
+		s.Begin(allHdr) // 5
+		s.expect(OK(s.Unstake(4, 1, s.StakeIDs(4, 1)[0])), "a4 releases its first stake (refund due at 8)")
+		s.End()
+		s.Restart()
+		s.Begin(allHdr) // 6
+		s.expect(OK(s.Unstake(3, 3, s.StakeIDs(3, 3)[0])), "a3 exits: a6 is force-released (refund due at 9)")
+		s.End()
+		s.Blocks(1, allHdr) // 7
+		s.Restart()
+		s.Blocks(1, allHdr)                        // 8: first refund, right after a restart
+		for i := 0; i < 5 && s.R.Dead == ""; i++ { // 9..13: a2 is absent until it is jailed (a1 alone has more than two thirds)
+			s.Begin(Hdr{Absent: []int{2}})
+			s.End()
+			if i == 2 {
+				s.Restart()
+			}
+		}
+		s.Restart()
+		s.Blocks(6, allHdr)
+	}},
 	{"two_proposals_one_block", []string{"C15", "C16"}, fam(0), func(s *Script) {
 		s.Blocks(3, allHdr)
 		s.Begin(allHdr)
@@ -383,6 +464,13 @@ var Scenarios = []Directed{
 				tx.GasPrice = Amt("10")
 			}
 			s.expect(!OK(s.Deliver(tx, 5, "transfer:otherprice")), "a transaction at the inactive price fails")
+			// gas limits around the minimum in force (10 before, 12 after the change)
+			for _, g := range []uint64{10, 11, 12} {
+				tx := s.TxTransfer(6, 4, "1e15")
+				tx.Gas = g
+				want := g >= s.gas()
+				s.expect(OK(s.Deliver(tx, 6, fmt.Sprintf("transfer:gas%d", g))) == want, fmt.Sprintf("gas %d against the minimum in force", g))
+			}
 			s.End()
 		}
 	}},
